@@ -342,3 +342,24 @@ V("c17-ident-deleted-eq-silent", "C17", DB, "            if val is not DELETED:"
 V("c12-fwd-flag-dropped", "C12", BN, "                right_child, keypath[1:], value, if_delete_subtrie\n", "                right_child, keypath[1:], value\n", rule="FWD")
 V("c12-fwd-flag-keyword-silent", "C12", BN, "                right_child, keypath[1:], value, if_delete_subtrie\n", "                right_child, keypath[1:], value, if_delete_subtrie=if_delete_subtrie\n", expect="silent")
 V("c14-fwd-from-db-default", "C14", SM, "smt = cls(key_size=key_size, default=default)", "smt = cls(key_size=key_size)", rule="FWD")
+# --- if/else swaps found by tools/refactor_sweep.py -------------------------
+V("c16-writer-inverted", "C16", BI, "            if char & exp:\n                yield True\n            else:\n                yield False",
+  "            if char & exp:\n                yield False\n            else:\n                yield True", rule="SIB7b")
+V("c16-writer-ifswap-silent", "C16", BI, "            if char & exp:\n                yield True\n            else:\n                yield False",
+  "            if not char & exp:\n                yield False\n            else:\n                yield True", expect="silent")
+V("c14-calcroot-ifswap-silent", "C14", SM, "        if path & target_bit:\n            node_hash = keccak(sibling_node + node_hash)\n        else:\n            node_hash = keccak(node_hash + sibling_node)",
+  "        if not path & target_bit:\n            node_hash = keccak(node_hash + sibling_node)\n        else:\n            node_hash = keccak(sibling_node + node_hash)", expect="silent", props=["C14", "C15"])
+V("c14-calcroot-ifswap-wrong", "C14", SM, "        if path & target_bit:\n            node_hash = keccak(sibling_node + node_hash)\n        else:\n            node_hash = keccak(node_hash + sibling_node)",
+  "        if not path & target_bit:\n            node_hash = keccak(sibling_node + node_hash)\n        else:\n            node_hash = keccak(node_hash + sibling_node)", rule="SIB5")
+# --- RECOUNT (round-3 seed C06-r3-3) ----------------------------------------
+V("c06-recount-wrong-blank-constant", "C06", HX, "isinstance(key, list) or key == BLANK_NODE_HASH:", "isinstance(key, list) or key == BLANK_NODE:", rule="RECOUNT")
+V("c06-recount-skip-dropped", "C06", HX, "            if key == b\"\" or isinstance(key, list) or key == BLANK_NODE_HASH:\n                continue\n            new_ref_count[key] += 1",
+  "            if isinstance(key, list) or key == BLANK_NODE_HASH:\n                continue\n            new_ref_count[key] += 1", rule="RECOUNT")
+V("c06-recount-extension-key", "C06", HX, "                keys_to_count.append(node[1])", "                keys_to_count.append(node[0])", rule="RECOUNT")
+V("c06-recount-assign", "C06", HX, "            new_ref_count[key] += 1\n", "            new_ref_count[key] = 1\n", rule="RECOUNT")
+V("c06-recount-leaf-expanded", "C06", HX, "            elif node_type == NODE_TYPE_EXTENSION:\n                keys_to_count.append(node[1])",
+  "            elif node_type in (NODE_TYPE_EXTENSION, NODE_TYPE_LEAF):\n                keys_to_count.append(node[1])", rule="RECOUNT")
+V("c06-recount-reordered-silent", "C06", HX, "            if key == b\"\" or isinstance(key, list) or key == BLANK_NODE_HASH:\n                continue\n            new_ref_count[key] += 1",
+  "            if key == BLANK_NODE_HASH or key == b\"\":\n                continue\n            if isinstance(key, list):\n                continue\n            new_ref_count[key] += 1", expect="silent")
+V("c06-recount-arms-swapped-silent", "C06", HX, "            if node_type == NODE_TYPE_BRANCH:\n                keys_to_count.extend(node[:16])\n            elif node_type == NODE_TYPE_EXTENSION:\n                keys_to_count.append(node[1])",
+  "            if node_type == NODE_TYPE_EXTENSION:\n                keys_to_count.append(node[1])\n            elif node_type == NODE_TYPE_BRANCH:\n                keys_to_count.extend(node[:16])", expect="silent")
